@@ -44,7 +44,9 @@ Definition with_strong (x : rrec) (n : nat) : rrec :=
 
 (* Arc::clone *)
 Definition clone1 (x : rrec) : rrec := with_strong x (S (r_strong x)).
-(* impl Drop for MmapRegion, mmap/unix.rs:424-441 *)
+(* impl Drop for MmapRegion, mmap/unix.rs:424-441: `if self.owned { munmap(self.addr, self.size) }` - the region's OWN
+   mapping, exactly: address and size are those build() got from mmap; no other field (file offset, prot, flags, the
+   caller's hugetlbfs hint) enters, and no other region's record is touched *)
 Definition drop_region (x : rrec) : rrec :=
   if r_owned x then
     {| r_kind := r_kind x; r_slot := r_slot x; r_owned := r_owned x; r_strong := r_strong x; r_live := false;
@@ -274,6 +276,15 @@ Definition exec (o : op) (s : state) : state * result :=
       | _, _ => (s, Impossible) end
   end.
 
+(* the handles an operation is given *)
+Definition args (o : op) : list nat :=
+  match o with
+  | Create _ _ | CreateRefused _ _ => []
+  | Build hs | BuildMove _ hs => hs
+  | Insert hm hr | InsertMove hm hr => [hm; hr]
+  | Remove hm _ _ | Snap hm => [hm]
+  | CloneH h | DropH h => [h]
+  end.
 (* the handles an operation consumes (moves out of the client's hands), whatever it answers *)
 Definition consumed (o : op) : list nat :=
   match o with BuildMove _ hs => hs | InsertMove _ hr => [hr] | _ => [] end.
